@@ -1,5 +1,6 @@
 SPECIFICATION Spec
 CONSTANTS
+  SubPermitRace = FALSE
   RaceTokenWait = FALSE
   Max = 2
   MaxConnects = 3
